@@ -3,6 +3,7 @@
 //! (`/verif/lean/Main.lean`) executes the same lines on the model.
 use std::io::{BufRead, Write};
 
+mod cubic;
 mod pure;
 mod rx;
 mod segs;
@@ -19,6 +20,7 @@ pub struct St {
     pub rx: rx::RxSt,
     pub segs: segs::SegSt,
     pub vs: vsock::Vs,
+    pub cubic: cubic::CubicSt,
 }
 
 fn step(st: &mut St, line: &str) -> String {
@@ -32,6 +34,7 @@ fn step(st: &mut St, line: &str) -> String {
         Some((&"rx", args)) => rx::step_rx(&mut st.rx, args),
         Some((&"seg", args)) => segs::step_segs(&mut st.segs, args),
         Some((&"vs", args)) => vsock::step_vs(&mut st.vs, args),
+        Some((&"cubic", args)) => cubic::step_cubic(&mut st.cubic, args),
         Some((&"rtte", args)) => pure::step_rtte(&mut st.rtte, args),
         _ => "bad-op".into(),
     }
@@ -52,6 +55,7 @@ fn main() {
         rx: rx::RxSt::new(64, 8),
         segs: segs::SegSt::new(0),
         vs: vsock::Vs::new(),
+        cubic: cubic::CubicSt::new(),
     };
     for line in stdin.lock().lines() {
         let line = line.unwrap();
